@@ -300,18 +300,20 @@ theorem narrowed_section_witness :
 open FlexModel.Fac.Denm.Rep in
 /-- **regenerated structural fact** (re-read from /repo on every run by `harness/gen_denm.py`): the message object
     handed over in a repetition is local to that repetition - the argument of every `self.transmit_denm(..)` is a local
-    bound in the same loop body to a fresh `DecentralizedEnvironmentalNotificationMessage()`, nothing reachable from
+    bound in the same loop body (code 0; code 1: once per event, before the loop) to a fresh
+    `DecentralizedEnvironmentalNotificationMessage()` - private to the event's thread either way -, nothing reachable from
     `request_denm_sending` / `trigger_denm_messages` / `send_collision_risk_warning_denm` stores through `self`, a
     parameter or a global, and the instance attributes read there are the collaborators only. -/
 theorem repetition_message_tied :
     Generated.Denm.bodySharedStores = 0 ∧ (∀ a ∈ Generated.Denm.bodySelfAttrs, a ∈ collaborators) ∧
-    Generated.Denm.transmitArgs ≠ [] ∧ (∀ c ∈ Generated.Denm.transmitArgs, c = 0) ∧ factsOk = true := by
+    Generated.Denm.transmitArgs ≠ [] ∧ (∀ c ∈ Generated.Denm.transmitArgs, c ≤ 1) ∧ factsOk = true := by
   decide
 
 open FlexModel.Fac.Denm.Rep in
-/-- hence the scope of the message object in the tree under check -/
-theorem source_scope_per_repetition : sourceScope = Scope.perRepetition := by
-  simp [sourceScope, repetition_message_tied.2.2.2.2]
+/-- hence the message object of the tree under check is private to the thread of its event -/
+theorem source_scope_thread_private : sourceScope.threadPrivate = true := by
+  simp only [sourceScope, repetition_message_tied.2.2.2.2, if_true]
+  split <;> rfl
 
 open FlexModel.Fac.Denm.Rep in
 /-- **every DENM is its event's own, whatever the overlap**: any number of events of one station, each repeated by
@@ -321,8 +323,7 @@ open FlexModel.Fac.Denm.Rep in
     position of that event, and is geo-broadcast to a circle centred on that position. -/
 theorem overlapping_events_own_identity (evs : List Event) (sched : List Nat) :
     ∀ o ∈ (Rep.run sourceScope evs sched).out, Own evs o := by
-  rw [source_scope_per_repetition]
-  exact (inv_run evs sched).outs
+  exact (inv_run sourceScope source_scope_thread_private evs sched).outs
 
 open FlexModel.Fac.Denm.Rep in
 /-- … all DENMs of one event therefore carry ONE action id, and events with different sequence numbers (what
@@ -355,9 +356,8 @@ open FlexModel.Fac.Denm.Rep in
 theorem overlapping_events_count (evs : List Event) (sched : List Nat)
     (hfin : Rep.finished evs (Rep.run sourceScope evs sched) = true) (t : Nat) (e : Event) (he : evs[t]? = some e) :
     (outsOf (Rep.run sourceScope evs sched) t).length = e.reps := by
-  rw [source_scope_per_repetition] at hfin ⊢
-  rw [(inv_run evs sched).cnt t]
-  have hle := k_le_reps evs sched t e he
+  rw [(inv_run sourceScope source_scope_thread_private evs sched).cnt t]
+  have hle := k_le_reps sourceScope evs sched t e he
   have hlt : t < evs.length := by
     rcases Nat.lt_or_ge t evs.length with h | h
     · exact h
@@ -379,12 +379,13 @@ example :
 open FlexModel.Fac.Denm.Rep in
 /-- seeded change C17-m5 as a witness (`Scope.shared`: ONE message object refilled by every repetition of every
     event): event 1's thread refills the object between event 0's fill and event 0's encode - event 0's first DENM goes
-    out with event 1's action id, to event 1's position; the same interleaving is harmless with per-repetition objects. -/
+    out with event 1's action id, to event 1's position; the same interleaving is harmless with thread-private objects. -/
 theorem shared_message_witness :
     let evs : List Event := [⟨4242, 0, ⟨413870000, 21120000⟩, 1⟩, ⟨4242, 1, ⟨-338680000, -701234567⟩, 1⟩]
     let sched := [0, 0, 0, 1, 1, 1, 0, 0, 0, 1, 1, 1]
     (Rep.run .shared evs sched).out.head? = some ⟨0, ⟨4242, 1⟩, ⟨-338680000, -701234567⟩, ⟨-338680000, -701234567⟩⟩ ∧
-    (Rep.run .perRepetition evs sched).out.head? = some ⟨0, ⟨4242, 0⟩, ⟨413870000, 21120000⟩, ⟨413870000, 21120000⟩⟩ := by
+    (Rep.run .perRepetition evs sched).out.head? = some ⟨0, ⟨4242, 0⟩, ⟨413870000, 21120000⟩, ⟨413870000, 21120000⟩⟩ ∧
+    (Rep.run .perEvent evs sched).out.head? = some ⟨0, ⟨4242, 0⟩, ⟨413870000, 21120000⟩, ⟨413870000, 21120000⟩⟩ := by
   decide
 
 /-! ## Degenerate intervals (outside the property's range 100…10000 ms): explicit branches -/
